@@ -60,9 +60,12 @@ def coq_file(groups, fuel=40):
         gs.append("(%s,\n  [%s])" % (coq_world(lang, tab), cs))
     return (C.CASE_HEADER + "From Coq Require Import List Arith Bool.\nImport ListNotations.\n"
             "From Heph Require Import Types.Syntax Types.Subst Types.Subtype Types.Decl Types.Corr Types.Judge Generated.Builtins.\n"
+            "From Heph Require Import Types.TableOk Types.ProjFrag Types.ProjCorr.\n"
             "Definition gs : list sub_group := [\n%s\n].\n"
+            "Eval vm_compute in (groups_counts %d gs).\n"
+            "Eval vm_compute in (refuted_inside %d 0 gs).\n"
             "Eval vm_compute in (group_mismatches %d 0 gs).\n"
-            "Eval vm_compute in (group_judge %d 0 gs).\n" % (";\n".join(gs), fuel, 60))
+            "Eval vm_compute in (group_judge %d 0 gs).\n" % (";\n".join(gs), 60, 60, fuel, 60))
 
 
 def parse_pairs(s):
@@ -79,6 +82,21 @@ def parse_triples(s):
     return [tuple(int(x) for x in m) for m in re.findall(r"\((\d+),\s*(\d+),\s*(\d+)\)", body)]
 
 
+def parse_nat_lists(s):
+    """'[[1; 2]; [3; 4]] : list (list nat)' -> [[1, 2], [3, 4]]"""
+    body = s.split(" : ")[0].strip()
+    return [[int(x) for x in re.findall(r"\d+", m)] for m in re.findall(r"\[([0-9;\s]*)\]", body)]
+
+
+FRAG_KEYS = ["pairs", "types_in_fragment", "inside", "inside_with_projection", "inside_distinct_types",
+             "inside_answered_true", "inside_answered_false", "inside_true_confirmed_by_sub_ref",
+             "inside_true_refuted_by_sub_ref",
+             "converse_inside", "converse_inside_with_projection", "converse_inside_answered_false",
+             "converse_false_confirmed_by_sub_ref", "converse_false_refuted_by_sub_ref",
+             "inside_projection_free_theorem", "inside_any_soundness_theorem",
+             "safe_inside", "safe_inside_table_not_params_direct", "safe_inside_with_projection",
+             "safe_true_confirmed_by_sub_ref", "safe_true_refuted_by_sub_ref"]
+
 JUDGE = {1: "unsound-core", 2: "unsound-projection", 3: "unsound-tyvar", 4: "incomplete-ground",
          5: "reference-out-of-fuel", 6: "unsound-malformed"}
 
@@ -91,6 +109,11 @@ def run(tier, seed, replay=None):
                             ["Generated/Builtins.vo", "Types/Syntax.vo", "Types/Subst.vo", "Types/Subtype.vo",
                              "Types/Decl.vo", "Types/Corr.vo", "Types/Judge.vo", "Types/SubtypeSound.vo"],
                             ["Types", "Generated"])
+    pr_proj = C.check_properties_file("Types/Properties_C06_proj.v",
+                                      ["Types/ProjFrag.vo", "Types/ProjFragC.vo", "Types/ProjSafe.vo", "Types/ProjCorr.vo",
+                                       "Types/ProjSound.vo", "Types/ProjComplete.vo", "Types/ProjSafeSound.vo", "Types/ProjSafeJudge.vo",
+                                       "Types/ProjExamples.vo"])
+    proof_ok = C.proof_part_extra(rep, pr_proj) and proof_ok
     rng = random.Random(C.sub_seed(seed, "c06"))
     langs = {l: T.Lang(l) for l in T.LANGS}
     groups = []
@@ -117,6 +140,9 @@ def run(tier, seed, replay=None):
     C.clean_cases("c06_")
     res = C.run_case_files(files, timeout=1500)
     mism, unsound = [], []
+    frag = dict((k_, 0) for k_ in FRAG_KEYS)
+    frag.update(tables=0, tables_table_ok=0, tables_params_direct=0, tables_supers_solid=0, tables_both=0, tables_all_three=0)
+    frag_refuted = []
     for k, (name, _) in enumerate(files):
         rc, out = res[name]
         if rc != 0:
@@ -124,6 +150,17 @@ def run(tier, seed, replay=None):
                           dict(broken=name, log=out[-3000:]), no_input=True)
             continue
         vals = C.parse_eval_outputs(out)
+        for row in parse_nat_lists(vals[-4]):
+            frag["tables"] += 1
+            frag["tables_table_ok"] += row[0]
+            frag["tables_params_direct"] += row[1]
+            frag["tables_supers_solid"] += row[2]
+            frag["tables_both"] += row[0] * row[1]
+            frag["tables_all_three"] += row[0] * row[1] * row[2]
+            for k_, v_ in zip(FRAG_KEYS, row[3:]):
+                frag[k_] += v_
+        for (g, c, code) in parse_triples(vals[-3]):
+            frag_refuted.append((k * chunk + g, c, code))
         for (g, c) in parse_pairs(vals[-2]):
             mism.append((k * chunk + g, c // 2, c % 2))
         for (g, c, code) in parse_triples(vals[-1]):
@@ -156,7 +193,33 @@ def run(tier, seed, replay=None):
         rep.violation(JUDGE[code], "%s: is_subtype(%s, %s) answers %s but the declarative relation says %s [%s]"
                       % (lang, T.cterm(s), T.cterm(t), bool(a), "no" if a else "yes", JUDGE[code]),
                       dict(lang=lang, table={k: list(v) for k, v in tab.items()}, s=s, t=t, impl=a, shape=JUDGE[code]))
-    rep.add(judge_histogram=jhist)
+    for (g, c, code) in frag_refuted:
+        lang, tab, cases = groups[g]
+        s, t, a, b = cases[c]
+        kind = "proj-fragment-incomplete" if code == 2 else "proj-fragment-unsound"
+        thm = {1: "is_subtype_sound_proj_partial", 2: "is_subtype_complete_proj_partial",
+               3: "is_subtype_sound_safe_partial"}[code]
+        rep.violation(kind,
+                      "%s: is_subtype(%s, %s) answers %s inside the hypotheses of %s (table_ok, params_direct%s, %s, wf_ty) "
+                      "but the declarative relation says %s"
+                      % (lang, T.cterm(s), T.cterm(t), bool(a), thm,
+                         {1: "", 2: ", supers_solid", 3: " replaced by safe_allb 12"}[code],
+                         "ground" if code == 2 else "proj_closed", "yes" if code == 2 else "no"),
+                      dict(lang=lang, table={k: list(v) for k, v in tab.items()}, s=s, t=t, impl=a, shape=kind,
+                           broken="Types/Properties_C06_proj.v %s vs src/ir/types.py" % thm))
+    rep.add(judge_histogram=jhist,
+            projection_fragment=dict(
+                frag,
+                rule="hypotheses of Types/Properties_C06_proj.v (is_subtype_sound_proj_partial) evaluated in the kernel on every "
+                     "explored case: table_ok and params_direct per table; proj_closed and wf_ty 20 of both types per pair; "
+                     "'inside' = all of them hold.  For inside pairs the implementation answered True on, the reference checker "
+                     "sub_ref (fuel 60) is evaluated: 'confirmed' = Yes, 'refuted' = No (a refuted pair contradicts the theorem "
+                     "unless model and implementation differ, and is reported as a violation).  converse_*: the hypotheses of "
+                     "is_subtype_complete_proj_partial (additionally supers_solid per table, ground instead of proj_closed per type); "
+                     "for those pairs answered False, 'confirmed' = sub_ref No, 'refuted' = sub_ref Yes.  safe_*: the hypotheses of "
+                     "is_subtype_sound_safe_partial (table_ok; proj_closed, wf_ty 20 and safe_allb 12 of both types -- params_direct not "
+                     "required).  inside_projection_free_theorem: table_ok, plain_closed and arity_ok (is_subtype_sound_pf of "
+                     "Properties_C06.v); inside_any_soundness_theorem: the union of the three"))
     bad_groups = {g for g, _, code in unsound if code != 5}
     for (g, c, which) in mism:
         lang, tab, cases = groups[g]
